@@ -205,6 +205,7 @@ pub fn run_edge(edge: &J, want_trace: bool) -> (Option<Viol>, Vec<J>) {
         let mut pre = serde_json::Map::new();
         pre.insert("op".into(), json!("Reset"));
         pre.insert("args".into(), json!({"x":0}));
+        pre.insert("path".into(), edge["path"].clone());     // how this state was reached (for replay)
         pre.insert("res".into(), json!("Ok"));
         pre.insert("st".into(), log_state(&mut sess));
         trace.push(J::Object(pre));
